@@ -23,6 +23,7 @@ func checkC04(p *Prog, r *Report) {
 	c04StartOffset(p, r)
 	sentinelFallback(p, r, "C04.R8")
 	c04TodayIndex(p, r)
+	c04GapFill(p, r)
 }
 
 // ---------------------------------------------------------------- R1 weather errors propagate
@@ -265,6 +266,16 @@ func c04Transform(p *Prog, r *Report) {
 			r.Ob("transform:loops", "-", false, "year/day loop nest not recognised")
 		} else {
 			y, d := PAtom(ls[0].Var), PAtom(ls[1].Var)
+			// the nest visits every record of every loaded year
+			loY, hiY, unitY, whyY := loopBounds(x, ls[0])
+			loD, hiD, unitD, whyD := loopBounds(x, ls[1])
+			var tparams []string
+			if tfi := p.Funcs["hermes.WeatherDataShared.transformWeatherData"]; tfi != nil {
+				tparams = paramNames(tfi.Decl)
+			}
+			okN := whyY == "" && whyD == "" && unitY && unitD && loY.IsZero() && loD.IsZero() && len(tparams) > 0 &&
+				stripVersions(hiY).Equal(pVar(tparams[0]).Sub(PInt(1))) && stripVersions(hiD).Equal(stripVersions(cellP("s.MaxYearDays", y)).Sub(PInt(1)))
+			r.Ob("transform:every-record", p.Pos(ls[0].Stmt.Pos()), okN, fmt.Sprintf("years %s..%s, days %s..%s, unit steps %v/%v (must be 0..years−1 and 0..MaxYearDays[y]−1: a record left out keeps mm and global radiation) %s %s", polyOr(loY), polyOr(hiY), polyOr(loD), polyOr(hiD), unitY, unitD, whyY, whyD))
 			seen := map[string]bool{}
 			for _, e := range x.Events {
 				if e.Kind != "assign" || len(e.Idx) != 2 {
@@ -287,7 +298,7 @@ func c04Transform(p *Prog, r *Report) {
 					// v = cell/10 · cor, cor = getCorrValue(d+1)
 					q := v.Div(cell).Scale(ratInt(10))
 					t := q.single()
-					okT := t != nil && len(t.M) == 1 && t.M[0].A.Fn == "hermes.corrArr.getCorrValue"
+					okT := t != nil && len(t.M) == 1 && t.M[0].E == 1 && t.C.Cmp(ratInt(1)) == 0 && t.M[0].A.Fn == "hermes.corrArr.getCorrValue"
 					if okT {
 						// the call event's argument
 						for _, c := range x.Events {
@@ -424,7 +435,7 @@ func c04CorrTable(p *Prog, r *Report) {
 // ---------------------------------------------------------------- R5 LoadYear
 
 func c04LoadYear(p *Prog, r *Report) {
-	r.Rule("C04.R5", "year lookup copies record t of the selected year to day t: g.X[t] ← s.X[yearIdx][t] with the same t, the year selected by JAR[yearIdx] == year, the day count taken from that year, and an error when the year is not loaded", 9)
+	r.Rule("C04.R5", "year lookup copies record t of the selected year to day t: g.X[t] ← s.X[yearIdx][t] with the same t, the year selected by JAR[yearIdx] == year, the day count taken from that year, and an error when the year is not loaded; optional series and the file's scalars are copied exactly when the file has them; the year search visits every loaded year", 20)
 	x := walked(p, "hermes.LoadYear")
 	if x == nil {
 		r.Ob("LoadYear", "-", false, "LoadYear not found")
@@ -437,7 +448,42 @@ func c04LoadYear(p *Prog, r *Report) {
 	}
 	yi, t := PAtom(ls[0].Var), PAtom(ls[1].Var)
 	pairs := map[string]string{"TEMP": "TMP", "TMIN": "TMI", "TMAX": "TMA", "RH": "RELF", "RAD": "RADI", "WIND": "WIN", "REGEN": "REG", "SUND": "SUND", "VERD": "VERD", "ETNULL": "ETNULL"}
-	seen := map[string]bool{}
+	optional := map[string]bool{"SUND": true, "VERD": true, "ETNULL": true}
+	selP := cellP("s.JAR", yi).Sub(pVar("year"))
+	// guardsOK: besides the loop conditions, the year selection JAR[yearIdx] == year (exactly) and, for an optional
+	// series or scalar, the positive "the file has this column" flag of the same name
+	guardsOK := func(e *Event, flag string, allowRepair bool) (bool, string) {
+		sel := false
+		for _, g := range flattenGuards(e.Guards) {
+			if g.Loop {
+				continue
+			}
+			if g.Kind == "cmp" {
+				gp := stripVersions(g.P)
+				if g.Op == token.EQL && (gp.Equal(stripVersions(selP)) || gp.Equal(stripVersions(selP).Neg())) {
+					sel = true
+					continue
+				}
+				// exit condition of the finished day loop (for the scalars after it)
+				if g.P.MentionsRoot("s.MaxYearDays") && !g.P.MentionsRoot("s.JAR") {
+					continue
+				}
+			}
+			if flag != "" && g.Kind != "not" && strings.Contains(g.Key(), "s.has"+flag) && !strings.Contains(g.Key(), "!") {
+				continue
+			}
+			if allowRepair && g.Kind == "not" {
+				continue
+			}
+			return false, "additionally conditional on " + g.Key()
+		}
+		if !sel {
+			return false, "not under the selection JAR[yearIdx] == year of the same year index"
+		}
+		return true, ""
+	}
+	plain := map[string]bool{}
+	swaps := map[string]string{}
 	for _, e := range x.Events {
 		if e.Kind != "assign" || !strings.HasPrefix(e.Root, "GlobalVarsMain.") || len(e.Idx) != 1 || !e.InLoop(ls[1]) {
 			continue
@@ -458,27 +504,73 @@ func c04LoadYear(p *Prog, r *Report) {
 			}
 		}
 		okc := e.Idx[0].Equal(t) && (v.Equal(want) || swapped)
-		sel := e.HasGuard(func(g *Cond) bool {
-			return g.Kind == "cmp" && g.Op == token.EQL && stripVersions(g.P).MentionsRoot("s.JAR") && g.P.MentionsAtom(varAtom("year"))
-		})
+		flag := ""
+		if optional[gf] {
+			flag = sf
+		}
+		okg, why := guardsOK(e, flag, swapped)
 		key := "copy:" + gf
 		if swapped {
 			key += ":swap"
+			swaps[gf] = guardKeys(e.Guards)
+		} else if okc && okg {
+			plain[gf] = true
 		}
-		seen[gf] = true
-		r.Ob(key, p.Pos(e.Pos), okc && sel, fmt.Sprintf("g.%s[%s] ← %s (want s.%s[%s][%s]); under JAR[yearIdx] == year: %v", gf, e.Idx[0], v, sf, yi, t, sel))
+		r.Ob(key, p.Pos(e.Pos), okc && okg, fmt.Sprintf("g.%s[%s] ← %s (want s.%s[%s][%s]) %s", gf, e.Idx[0], v, sf, yi, t, why))
 	}
+	var gfs []string
 	for gf := range pairs {
-		if !seen[gf] {
-			r.Ob("copy:"+gf, "-", false, "no copy of "+gf+" in LoadYear")
+		gfs = append(gfs, gf)
+	}
+	sort.Strings(gfs)
+	for _, gf := range gfs {
+		if !plain[gf] {
+			r.Ob("copy:"+gf, "-", false, "no plain copy of the selected year's "+gf+" record in LoadYear")
 		}
 	}
+	if len(swaps) > 0 {
+		r.Ob("copy:minmax-repair", p.Pos(ls[1].Stmt.Pos()), len(swaps) == 2 && swaps["TMIN"] == swaps["TMAX"], fmt.Sprintf("the min/max repair exchanges both values under the same condition: TMIN under [%s], TMAX under [%s]", clip(swaps["TMIN"], 100), clip(swaps["TMAX"], 100)))
+	}
+	// per-year and per-file scalars
+	for _, sc := range []struct{ g, s string; perYear bool }{{"WINDHI", "WINDHI", false}, {"CO2KONZ", "CO2KONZ", true}, {"ALTI", "ALTITUDE", false}} {
+		found := false
+		for _, e := range x.Events {
+			if e.Kind != "assign" || e.Root != "GlobalVarsMain."+sc.g || len(e.Idx) != 0 {
+				continue
+			}
+			found = true
+			want := cellP("s." + sc.s)
+			if sc.perYear {
+				want = cellP("s."+sc.s, yi)
+			}
+			okg, why := guardsOK(e, sc.s, false)
+			r.Ob("scalar:"+sc.g, p.Pos(e.Pos), stripVersions(e.Val).Equal(stripVersions(want)) && okg && e.InLoop(ls[0]), fmt.Sprintf("g.%s ← %s (want %s, when the file provides it) %s", sc.g, stripVersions(e.Val), want, why))
+		}
+		if !found {
+			r.Ob("scalar:"+sc.g, "-", false, "the file's "+sc.s+" is not handed to the run")
+		}
+	}
+	// year search visits every loaded year
+	loY, hiY, unitY, whyY := loopBounds(x, ls[0])
+	okYr := whyY == "" && unitY && loY.IsZero()
+	if okYr {
+		h := stripVersions(hiY).Add(PInt(1))
+		tm := h.single()
+		okYr = tm != nil && len(tm.M) == 1 && tm.M[0].A.Kind == "call" && tm.M[0].A.Fn == "len" && strings.Contains(tm.M[0].A.Key, "s.MaxYearDays")
+	}
+	r.Ob("year-range", p.Pos(ls[0].Stmt.Pos()), okYr, fmt.Sprintf("the year search runs %s..%s step one: %v (must visit every loaded year) %s", polyOr(loY), polyOr(hiY), unitY, whyY))
 	// day count
+	nJ := 0
 	for _, e := range x.Events {
 		if e.Kind == "assign" && e.Root == "GlobalVarsMain.JTAG" {
+			nJ++
 			v := stripVersions(e.Val)
-			r.Ob("day-count", p.Pos(e.Pos), v.Equal(cellP("s.MaxYearDays", yi)), fmt.Sprintf("JTAG ← %s (must be MaxYearDays[%s] of the selected year)", v, yi))
+			okg, why := guardsOK(e, "", false)
+			r.Ob("day-count", p.Pos(e.Pos), v.Equal(cellP("s.MaxYearDays", yi)) && okg, fmt.Sprintf("JTAG ← %s (must be MaxYearDays[%s] of the selected year) %s", v, yi, why))
 		}
+	}
+	if nJ == 0 {
+		r.Ob("day-count", "-", false, "the length of the loaded year is not handed to the day loop")
 	}
 	// day loop bound is that year's length
 	_, hi, unit, why := loopBounds(x, ls[1])
